@@ -173,14 +173,30 @@ class Client(object):
         if self.wiring == "full":
             # the library's own default layers: network, segments, noise, coder, logger, axolotl, protocol layers
             layers = YowStackBuilder.getDefaultLayers(**self.modules) + (self.app,)
+            if self.world.with_probes:
+                from vf.probes import Probe
+                self.probe_low, self.probe_top = Probe("low"), Probe("top")
+                layers = (layers[0], self.probe_low) + layers[1:] + (self.probe_top,)
         else:
             layers = (YowNetworkLayer, YowCoderLayer, YowLoggerLayer, AxolotlControlLayer,
                       YowParallelLayer((AxolotlSendLayer, AxolotlReceivelayer)),
                       YowParallelLayer(YowStackBuilder.getProtocolLayers(**self.modules)), self.app)
-        props = {"profile": self.profile}
+        from yowsup.layers.protocol_iq import YowIqProtocolLayer
+        # no keep-alive thread unless a check asks for it: it runs on wall-clock time and would outlive the world
+        props = {"profile": self.profile, YowIqProtocolLayer.PROP_PING_INTERVAL: 0}
         props.update(self.props)
         self.stack = YowStack(layers, reversed=False, props=props)
         self.net = self.stack.getLayer(0)
+        self.noise = None
+        i = 0
+        while True:
+            try:
+                l = self.stack.getLayer(i)
+            except IndexError:
+                break
+            if l.__class__.__name__ == "YowNoiseLayer":
+                self.noise = l
+            i += 1
         client = self
 
         def factory(dispatcher_type):
@@ -245,12 +261,16 @@ class Server(object):
         self.hold_upload_reply = set()   # phones whose key-upload result is withheld
         self.upload_reply_error = set()  # phones whose next upload gets an error reply
         self.ask_keys_ids = 0
+        self.auto_success = True
         self.low_keys = 0                # ask an account for more keys when fewer than this many are left
         self.asked_low = set()
 
     def now(self):
         self.t += 1
         return str(self.t)
+
+    def success_stanza(self):
+        return tup("success", {"t": self.now(), "props": "4", "creation": "1500000000", "location": "frc"})
 
     def new_id(self, prefix="srv"):
         self.sid += 1
@@ -267,7 +287,8 @@ class Server(object):
     def on_connected(self, client):
         self.outbound[client.phone] = []
         self.inbound.setdefault(client.phone, [])
-        self.outbound[client.phone].append(tup("success", {"t": self.now(), "props": "4", "creation": "1500000000", "location": "frc"}))
+        if self.auto_success:
+            self.outbound[client.phone].append(self.success_stanza())
         for st in self.offline.pop(client.phone, []):
             if st[0] in ("message", "receipt"):
                 st = (st[0], dict(st[1], offline="0"), st[2], st[3])
@@ -503,6 +524,9 @@ class World(object):
         self.idle_timeouts = 0
         self.server_static = None
         self.chunker = None        # optional: fn(bytes) -> [chunks] for server->client bytes in the full wiring
+        self.double_close_report = False
+        self.hold_connects = False # when set, pending 'connected' callbacks are not delivered
+        self.with_probes = False   # full wiring: insert recording probes above the network layer and above the application
 
     def close(self):
         from yowsup.axolotl.manager import AxolotlManager
@@ -570,6 +594,28 @@ class World(object):
             self.raw_out[client.phone] = [(x, b) for x, b in self.raw_out[client.phone] if x is not d]
         if notify:
             client.guarded(lambda: d.connectionCallbacks.onDisconnected(), "onDisconnected")
+            if self.double_close_report:
+                # real dispatchers may report one close twice (local close + end of the read loop)
+                client.guarded(lambda: d.connectionCallbacks.onDisconnected(), "onDisconnected")
+
+    def socket_error(self, phone):
+        """The connection attempt or the established connection fails with a socket error."""
+        c = self.clients[phone]
+        d = c.dispatcher
+        if d is None or d.state not in ("connecting", "up"):
+            return False
+        was_up = d.state == "up"
+        d.state = "closed"
+        self.pending_connects = [(x, y) for x, y in self.pending_connects if y is not d]
+        c.connected = False
+        c.authed = False
+        if was_up:
+            self.server.on_closed(c)
+        if c.phone in self.raw_out:
+            self.raw_out[c.phone] = [(x, b) for x, b in self.raw_out[c.phone] if x is not d]
+        c.guarded(lambda: d.connectionCallbacks.onConnectionError(OSError("simulated socket error")), "onConnectionError")
+        self.count("socket_errors")
+        return True
 
     def server_close(self, phone):
         """The server (or the network) drops the connection: the client is told by its dispatcher."""
@@ -617,8 +663,9 @@ class World(object):
     # -- scheduler --------------------------------------------------------------------------
     def enabled(self):
         acts = []
-        for c, d in self.pending_connects:
-            acts.append(("connected", c.phone))
+        if not self.hold_connects:
+            for c, d in self.pending_connects:
+                acts.append(("connected", c.phone))
         for c, d in self.pending_closes:
             acts.append(("closed", c.phone))
         for phone, q in self.server.inbound.items():
@@ -774,7 +821,7 @@ class World(object):
             if c.wiring != "full" or getattr(c, "dead", False):
                 continue
             try:
-                noise = c.stack.getLayer(2)
+                noise = c.noise
                 q = getattr(noise, "_incoming_segments_queue", None)
                 in_hs = noise._in_handshake() if hasattr(noise, "_in_handshake") else False
             except Exception:
@@ -789,7 +836,7 @@ class World(object):
             if c.wiring != "full" or getattr(c, "dead", False):
                 continue
             try:
-                w = getattr(c.stack.getLayer(2), "_handshake_worker", None)
+                w = getattr(c.noise, "_handshake_worker", None)
             except Exception:
                 continue
             if w is not None and w.is_alive():
